@@ -38,5 +38,7 @@ def units(tier):
           "<=3 / <=2 call items, outcome per item in {return, raise Exception, SystemExit, KeyboardInterrupt, result unpicklable}, values symbolic ints"),
         H("C04", M, "check_process_chunk_raises", t, [PE + "_process_chunk"], "chunks of 1..3 items each returning or raising Exception/StopIteration/KeyboardInterrupt/SystemExit"),
         H("C04", M, "check_rebuild_exc", t, [PE + "_ExceptionWithTraceback.__reduce__", PE + "_rebuild_exc"], "4 exception classes incl. SystemExit/KeyboardInterrupt, args symbolic ints"),
+        H("C04", M, "check_exc_payload_sendable", t, [PE + "_ExceptionWithTraceback.__init__", PE + "_ExceptionWithTraceback.__reduce__", PE + "_rebuild_exc"],
+          "2 picklable exception classes x {no chain, explicit cause, implicit context} x {picklable, unpicklable origin} x arg 0..3: the payload the worker puts on the result queue survives real pickle and shows the chain as text"),
         H("C04", M, "check_callbacks", t, ["loky._base:Future._invoke_callbacks"], "<=4 callbacks each {ok, raises Exception, SystemExit, KeyboardInterrupt}"),
     ]
